@@ -61,3 +61,41 @@ Theorem C04_deviations_only_in_known_classes : forall bs d q, hdr_ok bs = Some (
   integrity_sequence_gen true true bs = integrity_sequence bs.
 Proof. exact deviations_only_in_known_classes. Qed.
 Print Assumptions C04_deviations_only_in_known_classes.
+
+(* Decode itself (not only CheckIntegrity): with checksum verification on, every byte the model of the full decoder obtains through
+   readN is hashed whatever it is taken for (definition, field of any size and type, developer field, skipped field), and the
+   trailing two bytes are compared with the running value.  So whenever Decode accepts a stream that is exactly one sequence
+   long by its own header, everything after the header is a CRC codeword -- and by C04_burst a single-sequence file whose record
+   region or stored CRC was hit by a burst of at most 16 bits (single-bit flips included) is rejected by Decode, for every
+   option set with checksums on and every read-buffer size.  (For a corrupted sequence followed by further sequences the
+   decoder may frame the records differently and compare the CRC at another place; that case is decided per run.) *)
+From Fit Require Import Proofs.DecodeCrc.
+Theorem C04_decode_accepts_only_codewords : forall c bs fits evs, c_checksum c = true -> bytes_ok bs ->
+  decode_all (S (length bs)) c (init_state bs) [] = (Ok fits, evs) ->
+  len bs = nth 0 bs 0 + le_word (take 4 (drop 4 bs)) + 2 -> write 0 (drop (nth 0 bs 0) bs) = 0.
+Proof. exact decode_single_sequence_codeword. Qed.
+Print Assumptions C04_decode_accepts_only_codewords.
+
+Theorem C04_decode_rejects_burst : forall c hdr region region' i p j fits evs, c_checksum c = true ->
+  bytes_ok hdr -> bytes_ok region -> bytes_ok region' -> write 0 region = 0 ->
+  len hdr = nth 0 hdr 0 -> (8 <= length hdr)%nat -> len region' = le_word (take 4 (drop 4 hdr)) + 2 ->
+  bits_ok p -> (length p < 16)%nat ->
+  bits_of_bytes region' = xorl (bits_of_bytes region) (repeat 0 i ++ 1 :: p ++ repeat 0 j) ->
+  length (bits_of_bytes region) = (i + S (length p) + j)%nat ->
+  decode_all (S (length (hdr ++ region'))) c (init_state (hdr ++ region')) [] <> (Ok fits, evs).
+Proof. exact decode_rejects_burst. Qed.
+Print Assumptions C04_decode_rejects_burst.
+
+(* the hypotheses are met by real output: the decoder model (checksums on, defaults) accepts this encoder output, which is exactly
+   one sequence long by its own header and whose region is a codeword; flipping one bit of it makes the decoder model fail *)
+Definition c04_file := mkefile 14 0 0 [mkmsg 0 mesgnum_Record [set_value (create_field mesgnum_Record 253) (VNum TU32 1000000000); set_value (create_field mesgnum_Record 3) (VNum TU8 61)] []].
+Example C04_decode_instance :
+  match encode_fit (mkecfg false false 0 proto_V2 false) c04_file with
+  | Ok r => let bs := er_bytes r in
+            (exists fits, fst (decode_all (S (length bs)) default_cfg (init_state bs) []) = Ok fits /\ length fits = 1%nat)
+            /\ len bs = nth 0 bs 0 + le_word (take 4 (drop 4 bs)) + 2 /\ write 0 (drop (nth 0 bs 0) bs) = 0
+            /\ (let bs' := firstn 20 bs ++ [N.lxor (nth 20 bs 0) 4] ++ skipn 21 bs in
+                exists e, fst (decode_all (S (length bs')) default_cfg (init_state bs') []) = Err e)
+  | _ => False
+  end.
+Proof. vm_compute. split; [eexists; split; reflexivity|]. split; [reflexivity|]. split; [reflexivity|]. eexists. reflexivity. Qed.
